@@ -46,8 +46,10 @@ def base_body(rng):
         elif rng.random() < 0.5:
             parts.append((f'Content-Disposition: form-data; name="t{i}"', rng.choice([b'v', b'text value', 'é日本'.encode(), b'', b'a\r\nb', b'--Xb', b'x' * 40])))
         else:
-            parts.append((f'Content-Disposition: form-data; name="f{i}"; filename="f{i}.bin"\r\nContent-Type: application/octet-stream',
-                          rng.choice([b'DATA', b'\x00\xff\xfe', b'\r\n--Xb', b'', bytes(range(64))])))
+            # (a file input left empty is sent as a part with filename="" and no data)
+            fn = rng.choice([f'f{i}.bin', f'f{i}.bin', '', ' ', f'é{i}.bin'])
+            parts.append((f'Content-Disposition: form-data; name="f{i}"; filename="{fn}"\r\nContent-Type: application/octet-stream',
+                          rng.choice([b'DATA', b'\x00\xff\xfe', b'\r\n--Xb', b'', bytes(range(64))]) if fn else rng.choice([b'', b'', b'x\x00y'])))
     out = bytearray()
     for h, d in parts:
         out += b'--' + B.encode() + b'\r\n' + h.encode() + b'\r\n\r\n' + d + b'\r\n'
@@ -88,6 +90,8 @@ HEADER_MUTS = [
     ('ext_name_plain', lambda h: re.sub(r'name="([^"]*)"', r'name*=\1', h, 1)),
     ('continued_param', lambda h: re.sub(r'name="([^"]*)"', r'name*0="\1"; name*1="x"', h, 1)),
     ('star_only', lambda h: h + '; *=x; **; =*'),
+    ('empty_filename', lambda h: re.sub(r'filename="[^"]*"', 'filename=""', h, 1) if 'filename' in h else h + '; filename=""'),
+    ('filename_no_value', lambda h: re.sub(r'filename="[^"]*"', 'filename', h, 1) if 'filename' in h else h + '; filename'),
 ]
 
 
